@@ -179,6 +179,8 @@ namespace GeographicLib {
         break;
       zone1 = 10 * zone1 + i;
       ++p;
+      if (p > 2)                // Too many digits (reported below); don't
+        break;                  // let zone1 overflow
     }
     if (p > 0 && !(zone1 >= UTMUPS::MINUTMZONE && zone1 <= UTMUPS::MAXUTMZONE))
       throw GeographicErr("Zone " + Utility::str(zone1) + " not in [1,60]");
